@@ -90,9 +90,9 @@ def run(chk):
          fi=s.fi)
   dc = FnView(repo, 'dialects.DecorateCombineRule')
   ent = [n for n in dc.cfg.stmt_nodes() if isinstance(dc.cfg.stmt[n], ast.Assign) and
-         'MagicalEntangle' in norm(dc.cfg.stmt[n].value, 100000)]
+         'MagicalEntangle' in dc.deep_text(dc.cfg.stmt[n].value)]
   inc = [n for n, c in dc.all_calls() if call_tail(c) == 'append' and
-         'inclusion' in norm(c, 100000)]
+         'inclusion' in dc.deep_text(c)]
   for n, r in dc.returns():
     chk.ob('C02-R2', bool(ent) and bool(inc) and dc.cfg.must_pass_before(n, ent) and
            dc.cfg.must_pass_before(n, inc), None,
@@ -192,13 +192,21 @@ def run(chk):
            min_instances=8)
   ao = repo.func('parse.AggergationsAsExpressions.AggregationOperator')
   base_f, _ = templates.class_table(repo, 'QL', 'BUILT_IN_FUNCTIONS')
+  # the mapping is evaluated, not pattern-matched: AggregationOperator applied
+  # to the constant operator (finite abstract interpretation, all paths)
+  from sa.absint import Const, Interp, State, Sym
   mapping = {}
-  for x in walk_local(ao.node):
-    if isinstance(x, ast.If) and isinstance(x.test, ast.Compare) and \
-        const_str(x.test.comparators[0]) is not None:
-      for s2 in x.body:
-        if isinstance(s2, ast.Return) and const_str(s2.value) is not None:
-          mapping[const_str(x.test.comparators[0])] = const_str(s2.value)
+  op_param = [p_ for p_ in ao.params if p_ not in ('cls', 'self')][0]
+  for op in ('+', '++'):
+    env = {p_: Sym(p_) for p_ in ao.params}
+    env[op_param] = Const(op)
+    try:
+      outs = Interp(ao.node, {}, max_paths=200).run(State(env=env))
+    except AnalysisError:
+      outs = []
+    vals = {o.value.v for o in outs if o.kind == 'return' and isinstance(o.value, Const)}
+    if len(vals) == 1 and all(o.kind == 'return' and isinstance(o.value, Const) for o in outs):
+      mapping[op] = vals.pop()
   for op in ('+', '++'):
     chk.ob('C02-R4', mapping.get(op) in base_f, None,
            "aggregation operator '%s' maps to built-in %s" % (op, mapping.get(op)),
